@@ -131,6 +131,8 @@ def gen_ref(rng, ref, depth, ec, messy):
     seps = (ec['COMPONENT'], ec['SUBCOMPONENT'])
     if ref is None:
         return 'n'
+    if ref[0] == 'leaf' and len(ref) > 2 and ref[2] in ('varies', None) and depth == 0 and rng.random() < .6:
+        return gen_varies(rng, ec, messy)
     if ref[0] == 'leaf' or not ref[1] or depth >= 2:
         t = leaf_text(rng, ref[2] if len(ref) > 2 else 'ST', messy)
         if messy and rng.random() < .08 and depth < 2:
@@ -153,6 +155,22 @@ def gen_ref(rng, ref, depth, ec, messy):
         if not parts:
             parts = [gen_ref(rng, ref[1][0][1], depth + 1, ec, messy)]
     return sep.join(parts)
+
+
+def gen_varies(rng, ec, messy):
+    """value of a varies / untyped field (OBX-5, Z-segment fields): 1..14 components, some with
+    subcomponents, empty ones in the middle, the last one valued"""
+    k = rng.choice([1, 2, 3, 5, 9, 10, 11, 14])
+    parts = []
+    for j in range(k):
+        if j == k - 1 or rng.random() < .7:
+            sub = [rng.choice(['v%d' % (j + 1), 'A B', 'x\\F\\y'])]
+            if rng.random() < .25:
+                sub = [sub[0], '', 's%d' % (j + 1)] if rng.random() < .5 else [sub[0], 't']
+            parts.append(ec['SUBCOMPONENT'].join(sub))
+        else:
+            parts.append(' ' if (messy and rng.random() < .3) else '')
+    return ec['COMPONENT'].join(parts)
 
 
 def gen_segment_line(rng, lib, ec, sname=None, messy=True):
@@ -185,8 +203,11 @@ def gen_segment_line(rng, lib, ec, sname=None, messy=True):
             reps = [gen_ref(rng, row[1], 0, ec, messy) for _ in range(nrep)]
             fs.append(ec['REPETITION'].join(reps))
         elif i >= n:
-            fs.append(rng.choice(['beyond', 'b' + ec['COMPONENT'] + 'c' + ec['SUBCOMPONENT'] + 'd', '']) if messy or n == 0
-                      else 'zval')
+            if n == 0:      # Z-segment: every field is a varies field
+                fs.append(gen_varies(rng, ec, messy) if rng.random() < .7 else '')
+            else:
+                fs.append(rng.choice(['beyond', 'b' + ec['COMPONENT'] + 'c' + ec['SUBCOMPONENT'] + 'd', '']) if messy
+                          else 'zval')
         else:
             fs.append(rng.choice(['', '', ' ']) if messy else '')
     if not messy:
